@@ -1,0 +1,259 @@
+//go:build verif
+
+// Add-only verification hooks for property C14 (cluster manager capacity and
+// request accounting). Compiled only with -tags verif. Thin wrappers that
+// expose schedule(), the request/machine heaps and a live machineManager to
+// the driver in /verif/harness/c14. No existing identifier is changed.
+
+package exec
+
+import (
+	"container/heap"
+	"context"
+	stderrors "errors"
+
+	"github.com/grailbio/base/errors"
+	"github.com/grailbio/bigmachine"
+	"github.com/grailbio/bigslice"
+)
+
+// VerifC14Req is the key of a scheduling request.
+type VerifC14Req struct{ Priority, Procs int }
+
+// VerifC14Mach is the key of a machine in the machine queue.
+type VerifC14Mach struct{ Max, Load int }
+
+// VerifC14SchedResult is what one call of schedule() did.
+type VerifC14SchedResult struct {
+	Chosen       bool
+	ReqIndex     int // index in the input slice of the chosen request
+	MachIndex    int // index in the input slice of the chosen machine
+	Req          VerifC14Req
+	Mach         VerifC14Mach
+	ReqsAfter    []VerifC14Req  // contents of schedQ afterwards, in heap order
+	MachsAfter   []VerifC14Mach // contents of machQ afterwards, in heap order
+	IndexesOK    bool           // every queued element's index field is its position
+	HeapsOK      bool           // both slices satisfy the heap property for their Less
+	ChosenAtRoot bool           // the chosen pair is (schedQ[0], machQ[0]) on return
+}
+
+// VerifC14Schedule builds a real scheduleRequestQ and machineQ by pushing the
+// given elements in order (heap.Push), calls schedule once and reports.
+func VerifC14Schedule(reqs []VerifC14Req, machs []VerifC14Mach) VerifC14SchedResult {
+	var (
+		schedQ scheduleRequestQ
+		machQ  machineQ
+		rs     = make([]*scheduleRequest, len(reqs))
+		ms     = make([]*sliceMachine, len(machs))
+	)
+	for i, r := range reqs {
+		rs[i] = &scheduleRequest{priority: r.Priority, procs: r.Procs}
+		heap.Push(&schedQ, rs[i])
+	}
+	for i, m := range machs {
+		ms[i] = &sliceMachine{maxTaskProcs: m.Max, taskProcs: m.Load}
+		heap.Push(&machQ, ms[i])
+	}
+	req, mach := schedule(&schedQ, &machQ)
+	res := VerifC14SchedResult{ReqIndex: -1, MachIndex: -1, IndexesOK: true, HeapsOK: true}
+	if req != nil || mach != nil {
+		res.Chosen = true
+		for i := range rs {
+			if rs[i] == req {
+				res.ReqIndex = i
+			}
+		}
+		for i := range ms {
+			if ms[i] == mach {
+				res.MachIndex = i
+			}
+		}
+		if req != nil {
+			res.Req = VerifC14Req{req.priority, req.procs}
+		}
+		if mach != nil {
+			res.Mach = VerifC14Mach{mach.maxTaskProcs, mach.taskProcs}
+		}
+		res.ChosenAtRoot = len(schedQ) > 0 && len(machQ) > 0 && schedQ[0] == req && machQ[0] == mach
+	}
+	for i, r := range schedQ {
+		res.ReqsAfter = append(res.ReqsAfter, VerifC14Req{r.priority, r.procs})
+		if r.index != i {
+			res.IndexesOK = false
+		}
+		if i > 0 && schedQ.Less(i, (i-1)/2) {
+			res.HeapsOK = false
+		}
+	}
+	for i, m := range machQ {
+		res.MachsAfter = append(res.MachsAfter, VerifC14Mach{m.maxTaskProcs, m.taskProcs})
+		if m.index != i {
+			res.IndexesOK = false
+		}
+		if i > 0 && machQ.Less(i, (i-1)/2) {
+			res.HeapsOK = false
+		}
+	}
+	return res
+}
+
+// VerifC14Manager wraps a live machineManager.
+type VerifC14Manager struct{ m *machineManager }
+
+// VerifC14NewManager constructs a manager exactly as the executor does
+// (newMachineManager); Do must be started by the caller.
+func VerifC14NewManager(b *bigmachine.B, maxp int, maxLoad float64) *VerifC14Manager {
+	return &VerifC14Manager{newMachineManager(b, nil, nil, maxp, maxLoad, &worker{MachineCombiners: false})}
+}
+
+// Do runs the manager's event loop until ctx is done.
+func (v *VerifC14Manager) Do(ctx context.Context) { v.m.Do(ctx) }
+
+// Machprocs is the per-machine task capacity computed by newMachineManager.
+func (v *VerifC14Manager) Machprocs() int { return v.m.machprocs }
+
+// Maxp is the (possibly adjusted) parallelism limit.
+func (v *VerifC14Manager) Maxp() int { return v.m.maxp }
+
+// Queued returns the keys of the requests in schedQ. Only meaningful while
+// Do is parked in its select.
+func (v *VerifC14Manager) Queued() []VerifC14Req {
+	out := make([]VerifC14Req, 0, len(v.m.schedQ))
+	for _, r := range v.m.schedQ {
+		out = append(out, VerifC14Req{r.priority, r.procs})
+	}
+	return out
+}
+
+// VerifC14Offer is an outstanding call of Offer.
+type VerifC14Offer struct {
+	c      <-chan *sliceMachine
+	cancel func()
+}
+
+// Offer calls (*machineManager).Offer.
+func (v *VerifC14Manager) Offer(priority, procs int) *VerifC14Offer {
+	c, cancel := v.m.Offer(priority, procs)
+	return &VerifC14Offer{c, cancel}
+}
+
+// TryRecv is a non-blocking receive on the offer's channel.
+func (o *VerifC14Offer) TryRecv() (*VerifC14Machine, bool) {
+	select {
+	case m := <-o.c:
+		return &VerifC14Machine{m}, true
+	default:
+		return nil, false
+	}
+}
+
+// Cancel calls the cancel function returned by Offer.
+func (o *VerifC14Offer) Cancel() { o.cancel() }
+
+// VerifC14Machine wraps a granted *sliceMachine.
+type VerifC14Machine struct{ s *sliceMachine }
+
+// BM is the underlying bigmachine.Machine (its identity).
+func (m *VerifC14Machine) BM() *bigmachine.Machine { return m.s.Machine }
+
+// State returns taskProcs, maxTaskProcs and health (enum value). Only
+// meaningful while Do is parked.
+func (m *VerifC14Machine) State() (taskProcs, maxTaskProcs, health int) {
+	return m.s.taskProcs, m.s.maxTaskProcs, int(m.s.health)
+}
+
+// Same reports whether two wrappers denote the same sliceMachine.
+func (m *VerifC14Machine) Same(o *VerifC14Machine) bool { return m.s == o.s }
+
+// Done calls (*sliceMachine).Done with an error of the given class:
+// 0 = nil, 1 = remote (application) error, 2 = transport error.
+func (m *VerifC14Machine) Done(procs, class int) {
+	var err error
+	switch class {
+	case 1:
+		err = errors.E(errors.Remote, stderrors.New("verif: remote error"))
+	case 2:
+		err = errors.E(errors.Net, "verif: transport error")
+	case 3:
+		err = stderrors.New("verif: plain error")
+	}
+	m.s.Done(procs, err)
+}
+
+// VerifC14HealthEnum returns the enum values (ok, probation, lost).
+func VerifC14HealthEnum() (ok, probation, lost int) {
+	return int(machineOk), int(machineProbation), int(machineLost)
+}
+
+// VerifC14RunProbe is what a direct call of (*bigmachineExecutor).Run did to
+// the load of the machine it was granted.
+type VerifC14RunProbe struct {
+	Procs      int    // procs requested for the probed task
+	Machprocs  int    // the manager's machprocs
+	LoadBefore int    // taskProcs of the machine before Run
+	LoadAfter  int    // taskProcs after Run returned and the manager settled
+	State      string // final state of the probed task
+	Err        string // its error, if any
+}
+
+// VerifC14ProbeRun starts a bigmachine session on system (parallelism 1, so a
+// single machine), runs fv to completion - one machine is up, the invocation
+// is compiled on it and fv's tasks have a location - and then calls
+// (*bigmachineExecutor).Run directly on a task, taking a chosen exit path:
+//
+//	"rerun":       the finished task itself (Worker.Run returns nil)
+//	"run-error":   a task the worker does not know (Worker.Run returns an error)
+//	"no-location": a task depending on a task that never ran
+//	"commit-fail": a task whose dependency names a combine key the worker does
+//	               not have, so that Worker.CommitCombiner fails
+//
+// settle must return when the manager's Do loop is parked again.
+func VerifC14ProbeRun(ctx context.Context, system bigmachine.System, fv *bigslice.FuncValue, mode string, maxLoad float64, settle func()) (p VerifC14RunProbe, err error) {
+	sess := Start(Bigmachine(system), Parallelism(1), MaxLoad(maxLoad))
+	defer sess.Shutdown()
+	res, err := sess.Run(ctx, fv)
+	if err != nil {
+		return p, err
+	}
+	b := sess.executor.(*bigmachineExecutor)
+	t0 := res.tasks[0]
+	m := b.location(t0)
+	if m == nil {
+		return p, stderrors.New("verif: finished task has no location")
+	}
+	mgr := b.manager(0)
+	settle()
+	p.Machprocs = mgr.machprocs
+	p.LoadBefore = m.taskProcs
+	task := &Task{
+		Type:       t0.Type,
+		Invocation: t0.Invocation,
+		Name:       TaskName{InvIndex: t0.Name.InvIndex, Op: "verif_c14_probe", Shard: 0, NumShard: 1},
+		Pragma:     t0.Pragma,
+	}
+	switch mode {
+	case "rerun":
+		task = t0
+	case "run-error":
+	case "no-location":
+		never := &Task{Type: t0.Type, Invocation: t0.Invocation, Pragma: t0.Pragma,
+			Name: TaskName{InvIndex: t0.Name.InvIndex, Op: "verif_c14_never_ran", Shard: 0, NumShard: 1}}
+		task.Deps = []TaskDep{{Head: never}}
+	case "commit-fail":
+		task.Deps = []TaskDep{{Head: t0, CombineKey: "verif_c14_no_such_combine_key"}}
+	default:
+		return p, stderrors.New("verif: unknown mode " + mode)
+	}
+	p.Procs = task.Pragma.Procs()
+	if task.Pragma.Exclusive() || p.Procs > mgr.machprocs {
+		p.Procs = mgr.machprocs
+	}
+	b.Run(task)
+	settle()
+	p.LoadAfter = m.taskProcs
+	p.State = task.State().String()
+	if e := task.Err(); e != nil {
+		p.Err = e.Error()
+	}
+	return p, nil
+}
